@@ -62,7 +62,7 @@ class MemMapWorld(World):
     real_components = ("memory.MemoryMap (allocator, range map, namespace, translation)",
                        "csr.Bridge constructor (freeze-by-use)")
     stub_components = ("resources are inert wiring.Component / csr.Register objects",)
-    fault_kinds = ("rejected_call", "invalid_argument", "overlap_explicit", "out_of_bounds",
+    fault_kinds = ("abandoned_query", "rejected_call", "invalid_argument", "overlap_explicit", "out_of_bounds",
                    "duplicate_object", "name_conflict", "add_after_freeze", "bad_window")
     assumptions = (
         "no clock and no concurrency exist for these properties: 'simulation' is sequential "
@@ -118,6 +118,9 @@ class MemMapWorld(World):
                 ops.append({"k": "align", "m": m, "a": rng.range(0, 4) if rng.chance(0.9) else -1})
             elif k < 64:
                 ops.append({"k": "freeze", "m": m})
+            elif k < 69:
+                ops.append({"k": "peek", "m": m, "n": rng.range(0, 3),
+                            "what": rng.choice(["all", "all", "res", "win", "find", "decode"])})
             elif k < 66:
                 ops.append({"k": "bridge", "m": m})
             else:
@@ -295,6 +298,32 @@ class MemMapWorld(World):
                 mm.freeze()
                 mdl.frozen = True
                 hist.rec(step, "freeze")
+                continue
+            if k == "peek":
+                # a caller starts a query and abandons it part-way (early exit from a lookup
+                # loop), or queries before the tree is complete: queries must stay pure
+                n = int(op.get("n", 0))
+                what = op.get("what", "all")
+                stats.fault("abandoned_query")
+                if what in ("all", "res", "win"):
+                    it = {"all": mm.all_resources, "res": mm.resources, "win": mm.windows}[what]()
+                    for _ in range(n):
+                        if next(it, None) is None:
+                            break
+                    del it
+                elif what == "find":
+                    for o, _ in objs[:n + 1] + [(never_added[0], None)]:
+                        try:
+                            mm.find_resource(o)
+                        except KeyError:
+                            pass
+                else:
+                    for a in range(0, 1 << mdl.aw, max(1, (1 << mdl.aw) // (n + 2))):
+                        mm.decode_address(a)
+                check_report(m, step)
+                if c03:
+                    check_c03(step)
+                hist.rec(step, "peek", what, n)
                 continue
             if k == "bridge":
                 try:
